@@ -70,12 +70,14 @@ Proof.
       * (* occupied *)
         exists st. cbn [fst snd]. split; auto.
         assert (slot_step mode (OPut seq b) = mode).
-        { destruct mode; cbn; auto. destruct (N.eqb_spec seq 0); [contradiction|].
+        { destruct mode; cbn [slot_step]; auto. exfalso.
           (* virgin: the index is empty, nothing can be occupied *)
           destruct DI as [recs [_ [Hix [_ Hs]]]]. cbn in Hs. subst recs. cbn in Hix.
           rewrite Hix in E. discriminate. }
         rewrite H. split; auto. lia.
-      * (* accepted *)
+      * (* accepted: the record is not longer than MaxMsgLen *)
+        assert (Hlen' := Hlen). apply N.leb_le in Hlen'.
+        destruct (N.ltb_spec MAX_MSG_LENGTH (len b)) as [Hx|Hx]; [lia|]. clear Hx.
         set (dat := d_dat (f_disk st)) in *.
         set (p := (len dat, len b)).
         pose proof (sinsert_none seq p (f_index st) E) as Hs.
@@ -111,8 +113,9 @@ Proof.
         -- unfold len. rewrite app_length, Nat2N.inj_add. fold (len dat) (len b). lia.
         -- (* the index file *)
            assert (rec_ok (seq, p)) by (unfold rec_ok, p; cbn [fst snd]; lia).
-           destruct mode; cbn [slot_step disk_inv] in *; auto;
-             try (destruct (N.eqb_spec seq 0); [contradiction|]);
+           assert (Hss : (seq =? 0) || (MAX_MSG_LENGTH <? len b) = false).
+           { apply orb_false_iff. split; [apply N.eqb_neq; auto|apply N.ltb_ge; lia]. }
+           destruct mode; cbn [slot_step]; try rewrite Hss; cbn [disk_inv] in *; auto;
              destruct DI as [recs [H1 [H2 [H3 H4]]]]; exists (recs ++ [(seq, p)]);
              (split; [rewrite encs_app, H1; unfold encs; cbn [map concat fst snd]; rewrite app_nil_r; reflexivity|]);
              (split; [rewrite fold_left_app, <- H2; cbn [fold_left]; unfold ins; cbn [fst snd]; rewrite Ei; reflexivity|]);
@@ -244,3 +247,57 @@ Lemma c26_file_noreopen_lemma : forall ops,
   ops_wf ops = true -> zero_free ops = true -> no_reopen ops = true ->
   file_outputs ops = Some (spec_outputs ops).
 Proof. intros. apply c26_file_refines_lemma; auto. apply no_reopen_safe; auto. Qed.
+
+(* ---- records of any length: a put longer than MaxMsgLen is a refused put (a3cf082) ---- *)
+Lemma file_step_clip : forall st o, file_step st (clip_op o) = file_step st o.
+Proof.
+  intros st o. destruct o as [seq b| | | | | | | ]; try reflexivity. cbn [clip_op].
+  destruct (N.ltb_spec MAX_MSG_LENGTH (len b)) as [H|H]; [|reflexivity].
+  cbn [file_step file_sys N.eqb]. destruct (seq =? 0); [reflexivity|].
+  destruct (sfind seq (f_index st)); [reflexivity|].
+  destruct (N.ltb_spec MAX_MSG_LENGTH (len b)); [reflexivity|lia].
+Qed.
+
+Lemma file_run_clip : forall ops st, file_run st (clip ops) = file_run st ops.
+Proof.
+  induction ops as [|o r IH]; intros st; [reflexivity|]. cbn [clip map file_run].
+  rewrite file_step_clip. destruct (file_step st o) as [[st' x]|]; [|reflexivity].
+  fold (clip r). rewrite IH. reflexivity.
+Qed.
+
+Lemma slot_step_clip : forall m o, slot_step m (clip_op o) = slot_step m o.
+Proof.
+  intros m o. destruct o as [seq b| | | | | | | ]; try reflexivity. cbn [clip_op].
+  destruct (N.ltb_spec MAX_MSG_LENGTH (len b)) as [H|H]; [|reflexivity].
+  destruct m; cbn [slot_step N.eqb orb]; try reflexivity.
+  destruct (N.ltb_spec MAX_MSG_LENGTH (len b)); [|lia]. rewrite orb_true_r. reflexivity.
+Qed.
+
+Lemma reopen_safe_clip : forall ops m, reopen_safe_from m (clip ops) = reopen_safe_from m ops.
+Proof.
+  induction ops as [|o r IH]; intros m; [reflexivity|]. cbn [clip map reopen_safe_from]. fold (clip r).
+  rewrite slot_step_clip, IH.
+  destruct m; try reflexivity. destruct o as [seq b| | | | | | | ]; try reflexivity.
+  cbn [clip_op]. destruct (MAX_MSG_LENGTH <? len b); reflexivity.
+Qed.
+
+Lemma c26_file_refines_anylen_lemma : forall ops,
+  forallb op_bounded ops = true -> N.of_nat (length ops) < LIM ->
+  zero_free ops = true -> reopen_safe ops = true ->
+  file_outputs ops = Some (spec_outputs (clip ops)).
+Proof.
+  intros ops Hb Hn Hz Hr. unfold file_outputs. rewrite <- file_run_clip.
+  apply c26_file_refines_lemma.
+  - unfold ops_wf. apply andb_true_iff. split.
+    + unfold clip. rewrite forallb_forall in *. intros o Ho. apply in_map_iff in Ho.
+      destruct Ho as [o' [E Ho']]. subst o. specialize (Hb o' Ho').
+      unfold op_wf. destruct o' as [seq b| | | | | | | ]; cbn [clip_op]; try (rewrite Hb; reflexivity).
+      destruct (N.ltb_spec MAX_MSG_LENGTH (len b)).
+      * reflexivity.
+      * rewrite Hb. cbn [andb]. apply N.leb_le. exact H.
+    + unfold clip. rewrite map_length. apply N.ltb_lt. exact Hn.
+  - unfold zero_free, clip in *. rewrite forallb_forall in *. intros o Ho. apply in_map_iff in Ho.
+    destruct Ho as [o' [E Ho']]. subst o. specialize (Hz o' Ho').
+    destruct o' as [seq b| | | | | | | ]; cbn [clip_op]; auto. destruct (MAX_MSG_LENGTH <? len b); reflexivity.
+  - unfold reopen_safe. rewrite reopen_safe_clip. exact Hr.
+Qed.
